@@ -57,6 +57,17 @@ struct Budget {
     full_transfers: bool,
 }
 
+/// Peak memory of one call may be this multiple of the file size (plus 64 MiB). Derived from
+/// what decoding into the API's own types costs at most: one 16-byte `RecordValue` per stored
+/// value of at least one bit (128 bytes per input byte), one 104-byte `Point` per point of at
+/// least one bit (832 bytes per input byte), each held in a growable queue (capacity up to twice
+/// the length, old and new buffer alive during growth): about 3000. Anything beyond is not
+/// "linear in the input" for this API.
+pub const MEMORY_MULTIPLE: u64 = 4096;
+/// Largest source file of a C08/C09 run: MEMORY_MULTIPLE * SOURCE_CAP + 64 MiB stays below the
+/// allocation ceiling of 1 GiB, so the ceiling never cuts off a run that is within the budget.
+pub const SOURCE_CAP: usize = 192 * 1024;
+
 struct Meter<'a> {
     ctx: &'a Ctx,
     ops0: u64,
@@ -77,7 +88,7 @@ impl<'a> Meter<'a> {
         let (peak, calls) = alloc::end(self.alloc0);
         let max_bytes = 16 * b.len + (4 << 20);
         let max_ops = 64 * b.pages + 4096;
-        let max_peak = 256 * b.len + (64 << 20);
+        let max_peak = MEMORY_MULTIPLE * b.len + (64 << 20);
         let max_calls = 4096 * b.pages + (1 << 20);
         st.max("permille_of_budget.device_bytes_read", bytes * 1000 / max_bytes.max(1));
         if b.full_transfers {
@@ -350,6 +361,9 @@ impl Untrusted {
             full_transfers: case.rchunk == Chunk::Full,
         };
         alloc::set_ceiling(Some(CEILING));
+        if std::env::var("E57SIM_TRACE").is_ok() {
+            eprintln!("corrupted file: {} bytes ({} pages), pristine {} bytes", corrupted.len(), corrupted.len() / 1024, pristine.len());
+        }
         let r = self.drive(case, &pristine, &corrupted, &standalone, &budget, st);
         alloc::set_ceiling(None);
         if let Some((class, detail)) = r {
@@ -600,6 +614,39 @@ pub fn gen_untrusted(rc: &RunCtx) -> Case {
         let mut l = Rng::stream(rc.run_seed, "layout");
         Source::Producer { layout: Layout::draw(&mut l), foreign: g.below(32) as u8 }
     };
+    // The memory oracle of C09 is "a fixed multiple of the input size": MEMORY_MULTIPLE times the
+    // file plus a constant, and everything beyond the allocation ceiling is an abort. Both are
+    // consistent only for sources up to SOURCE_CAP bytes, so larger programs are scaled down.
+    for _ in 0..16 {
+        match build_image(&prog, &source, None) {
+            Ok((img, _)) if img.len() > SOURCE_CAP => {
+                for c in prog.calls.iter_mut() {
+                    match c {
+                        Call::Blob { data, .. } => data.len = data.len / 2 + 1,
+                        Call::Pc { steps, .. } => {
+                            for s in steps.iter_mut() {
+                                if let PcStep::Points { n, .. } = s {
+                                    *n = *n / 2 + 1;
+                                }
+                            }
+                        }
+                        Call::Img { steps, .. } => {
+                            for s in steps.iter_mut() {
+                                if let ImgStep::Rep(r) = s {
+                                    r.data.len = r.data.len / 2 + 1;
+                                    if let Some(m) = r.mask.as_mut() {
+                                        m.len = m.len / 2 + 1;
+                                    }
+                                }
+                            }
+                        }
+                        _ => {}
+                    }
+                }
+            }
+            _ => break,
+        }
+    }
     let mut f = Rng::stream(rc.run_seed, "fault");
     let plan = match build_image(&prog, &source, None).ok().and_then(|(img, _)| corrupt::map_of(&img).map(|m| (img, m))) {
         Some((img, map)) => corrupt::draw_plan(&mut f, &img, &map, size_targeted),
@@ -707,7 +754,7 @@ impl Prop for Untrusted {
         if self.budgets {
             Meta {
                 level: "exploration",
-                rule: format!("{common} Oracle (C09): per API call (every single iterator step is a call) device bytes read <= 16*len + 4 MiB, device operations <= 64*pages + 4096 (judged under full-transfer schedules only), peak allocation <= 256*len + 64 MiB, allocation calls <= 4096*pages + 2^20 (len = stored file size); iterators yield <= recordCount points; blob() returns <= len bytes. Distinct = hash(mutation descriptors, sealing, media faults, instant); non-trivial = the plan changed the stored bytes"),
+                rule: format!("{common} Oracle (C09): per API call (every single iterator step is a call) device bytes read <= 16*len + 4 MiB, device operations <= 64*pages + 4096 (judged under full-transfer schedules only), peak allocation <= 4096*len + 64 MiB (4096 = what decoding into the API's 16-byte values and 104-byte points costs per stored bit, with growth slack; sources are capped at 192 KiB so that this budget stays below the 1 GiB allocation ceiling), allocation calls <= 4096*pages + 2^20 (len = stored file size); iterators yield <= recordCount points; blob() returns <= len bytes. Distinct = hash(mutation descriptors, sealing, media faults, instant); non-trivial = the plan changed the stored bytes"),
                 assumptions: vec!["budget constants separate 'linear in the input' from 'unbounded'; they are not performance bounds".into(), "non-termination that touches neither device nor allocator is caught only by the 20 s watchdog".into()],
                 real: vec!["e57 crate reader paths".into(), "roxmltree".into()],
                 stub: vec!["SimDisk (counts operations and bytes)".into(), "counting allocator with ceiling".into(), "refcodec as field locator".into(), "child-process watchdog".into()],
